@@ -131,12 +131,21 @@ def run(ctx):
                 if on_merged(aa, field):
                     te, fe = L.bool_edges(fn, dd[0])
                     guards += fe
+            # the Vacant arm of `merged.<map>.entry(same key)`: for the compressed map a vacancy of the *plain* map counts too,
+            # because (R3) the plain map decides per object number and this is the only place either map is filled
+            kroots = FL.flow(fn).back_slice([l for op in a[1:2] for l in FL.op_locals(op)])[0]
+            for bb, cc, aa, dd in L.calls_to(fn, [HM + "entry"]):
+                if bb in body and (on_merged(aa, field) or on_merged(aa, "entries")) and dd:
+                    k2 = FL.flow(fn).back_slice([l for op in aa[1:2] for l in FL.op_locals(op)])[0]
+                    if (kroots & k2) - merged:
+                        y, n = L.discr_edges(fn, dd[0], 1)
+                        guards += y
             w = CF.must_pass(fn, [b], [], guard_edges=guards, start=header) if guards else [header, b]
             if w is not None:
                 ctx.violation("R2", key, "merged.%s.insert() inside the newest-first chain loop is not guarded by a vacancy test: the "
                               "oldest revision's entry wins" % field, fn.where(b))
             else:
-                ctx.ok("R2", key, "insert dominated by !contains_key", fn.where(b))
+                ctx.ok("R2", key, "insert dominated by a vacancy test (!contains_key / Entry::Vacant) for the same key", fn.where(b))
         else:
             ctx.undecided_site("R2", key, "mutation %s of a merged map" % name, fn.where(b))
     # R3 one key space
